@@ -183,9 +183,21 @@ def gen_world(rng):
     ads = []
     if "usergas" in roles:
         props = {"molar_mass": 58.5}
-        if rng.random() < 0.5:
+        r = rng.random()
+        if r < 0.4:
             props.update({"saturation_pressure": 2.5e5, "liquid_density": 0.8})
+        elif r < 0.7:
+            # the documented alternative spellings of two property names
+            props.update({"pressure_saturation": 2.5e5, "enthalpy_vaporisation": 21.5, "liquid_density": 0.8})
         ads.append(dict(name="VfNoBackend", **props))
+        if rng.random() < 0.6:
+            # a second isotherm of "the same" user gas whose Adsorbate is a distinct object with other constants
+            src = isos[roles["usergas"]]
+            twin = dict(src, adsorbate_object={"molar_mass": 58.5, "saturation_pressure": 4.0e5, "liquid_density": 0.9},
+                        meta={"flag": False})
+            twin["loading"] = [x * 1.1 for x in src["loading"]]
+            roles["usergas_twin"] = len(isos)
+            isos.append(twin)
     # model isotherms with explicit parameters, on the same gases (IAST with models, ModelIsotherm queries)
     if rng.random() < 0.6 and ("family" in roles or "partner" in roles):
         src = isos[roles["family"][-1]] if "family" in roles else isos[roles["partner"]]
